@@ -37,7 +37,35 @@ type world struct {
 }
 
 func hx(s string) string   { return hk.Hex([]byte(s)) }
-func hb(b []byte) string   { return hk.Hex(b) }
+// hb: a content field of an op line: the generator's token for registered generated content, else hex
+func hb(b []byte) string {
+	if len(b) > 4096 {
+		if g, ok := genReg[fmt.Sprintf("%d:%d", len(b), fnv32(b))]; ok && string(g.content) == string(b) {
+			return g.tok
+		}
+	}
+	return hk.Hex(b)
+}
+
+type genEntry struct {
+	tok     string
+	content []byte
+}
+
+// generated contents by (length, fnv32): so that op lines carry `r<seed>:<len>` instead of megabytes of hex
+var genReg = map[string]genEntry{}
+
+// genItem: a blob with generated content (schema-looking or plain), registered for hb
+func genItem(schemaLooking bool, seed uint64, n int, refKind string) item {
+	tok := fmt.Sprintf("r%d:%d", seed, n)
+	c := genBlob(seed, n)
+	if schemaLooking {
+		tok = fmt.Sprintf("s%d:%d", seed, n)
+		c, _ = schemaBlob(seed, n)
+	}
+	genReg[fmt.Sprintf("%d:%d", len(c), fnv32(c))] = genEntry{tok, c}
+	return item{refOf(refKind, c), c}
+}
 func dec(n int) string     { return strconv.Itoa(n) }
 func hdec(n int) string    { return hx(strconv.Itoa(n)) }
 func short(s string) string { return trunc(s, 300) }
@@ -375,7 +403,7 @@ func (w *world) doGet(t string, head bool) {
 	body, have := w.ref[br.String()]
 	switch {
 	case ok && getPat(t) && have:
-		want := fmt.Sprintf("200 %d %s", len(body), hb(body))
+		want := fmt.Sprintf("200 %d %s", len(body), showBody(body))
 		if head {
 			want = fmt.Sprintf("200 %d -", len(body))
 		}
@@ -413,7 +441,7 @@ func (w *world) doRange(ref string) {
 	w.r.Hit("mech:get-range-slurp")
 	if err != nil || code != 206 || int(cl) != b-a+1 || string(data) != string(body[a:b+1]) {
 		w.fail("get-range-wrong", fmt.Sprintf("GET %s Range bytes=%d-%d", ref, a, b),
-			fmt.Sprintf("206 %d %s", b-a+1, hb(body[a:b+1])), fmt.Sprintf("%d %d %s %v", code, cl, hb(data), err))
+			fmt.Sprintf("206 %d %s", b-a+1, showBody(body[a:b+1])), fmt.Sprintf("%d %d %s %v", code, cl, showBody(data), err))
 	}
 }
 
@@ -421,7 +449,7 @@ func (w *world) doFetch(ref string) {
 	out := w.op("cfetch " + hx(ref))
 	br, _ := validRef(ref)
 	if body, ok := w.ref[br.String()]; ok {
-		want := fmt.Sprintf("ok %d %s", len(body), hb(body))
+		want := fmt.Sprintf("ok %d %s", len(body), showBody(body))
 		if out != want {
 			w.fail("client-fetch-wrong", "client.Fetch of a present blob", want, out)
 		}
@@ -976,7 +1004,7 @@ func Run(r *hk.Run) {
 	w := &world{r: r, st: st}
 	defer setLive(nil)
 	R := r.R
-	r.Res.Rule = "a case = one in-process server built by serverinit from a high-level configuration (storage memory/localdisk/diskpacked/blobpacked × index memory/leveldb/kv/sqlite; blob root /bs/ or /bs-and-maybe-also-index/) behind an httptest.Server, then a random history of raw protocol requests (PUT with and without Content-Length, multipart with 0–5 parts, batch stat by GET and POST with holes, duplicates, bogus refs, 0..1002 blobs, GET/HEAD/Range, enumerate with every limit text, cursor and maxwaitsec text) and pkg/client calls (Upload with and without pre-stat and have-cache, StatBlobs, Fetch, EnumerateBlobsOpts with its page size rewritten by the transport to every value, After, Limit, MaxWait), ended by a sweep (client enumeration, raw paging with two limits, stat of the whole pool, GET of every blob). Every answer is checked against the reference map here and, line by line, against the Lean model. distinct_nontrivial = distinct (configuration, set of op kinds, number of blobs stored, number of enumerate pages fetched) tuples of histories that stored ≥ 2 blobs and paged through ≥ 2 pages, plus one per directed scenario and configuration"
+	r.Res.Rule = "a case = one in-process server built by serverinit from a high-level configuration (storage memory/localdisk/diskpacked/blobpacked × index memory/leveldb/kv/sqlite; blob root /bs/, /bs-and-maybe-also-index/, or raw uploads through the replica /bs-and-index/ with reads on /bs/) behind an httptest.Server, then a random history of raw protocol requests (PUT with and without Content-Length, multipart with 0–5 parts, batch stat by GET and POST with holes, duplicates, bogus refs, 0..1002 blobs, GET/HEAD/Range, enumerate with every limit text, cursor and maxwaitsec text) and pkg/client calls (Upload with and without pre-stat and have-cache, StatBlobs, Fetch, EnumerateBlobsOpts with its page size rewritten by the transport to every value, After, Limit, MaxWait), ended by a sweep (client enumeration, raw paging with two limits, stat of the whole pool, GET of every blob). Every answer is checked against the reference map here and, line by line, against the Lean model. distinct_nontrivial = distinct (configuration, set of op kinds, number of blobs stored, number of enumerate pages fetched) tuples of histories that stored ≥ 2 blobs and paged through ≥ 2 pages, plus one per directed scenario and configuration (stat cap, long poll, big store, packed file, and blobs of 1 MiB−1 … 2 MiB / 16 MiB with generated plain and schema-looking content through PUT, chunked PUT, multipart, Client.Upload with and without pre-stat, on the cond root, the bs+index replica and the storage itself)"
 
 	type conf struct{ sto, idx, root string }
 	var confs []conf
@@ -1017,6 +1045,7 @@ func Run(r *hk.Run) {
 	} else {
 		w.scenarioPackedFile("blobpacked")
 	}
+	w.scenarioBigBlobs()
 	w.scenarioMalformed()
 	w.probes()
 }
